@@ -835,6 +835,8 @@ class Interp:
         if isinstance(obj, SymMixed):
             if name in ("directed", "undirected"):
                 return getattr(obj, name)
+            if name == "__class__":
+                return ClassRef("NxMixedGraph")
             f = self.classes["NxMixedGraph"].get(name)
             if f is None:
                 raise Unsupported(f"NxMixedGraph.{name}")
